@@ -22,8 +22,12 @@ CONSTANTS DocSeq,      \* documents, in the order in which a behaviour may first
           MaxLens,     \* ChannelCacheMaxLength values explored
           MinLens,     \* ChannelCacheMinLength values explored
           Lims,        \* limits of a read (0 = none)
+          AOs,         \* active-only values of a read (subset of BOOLEAN)
           MaxPending,  \* bound on writes in flight
-          Acts         \* enabled action names (configs restrict the alphabet)
+          Acts,        \* enabled action names (configs restrict the alphabet)
+          HitSteps,    \* FALSE: a read answered from the cache alone (no effect on the cache) is not a step of a behaviour
+          RecordReads  \* FALSE (model checking only): results of uninterrupted reads are not kept in the state,
+                       \* ReadCorrectAll evaluates every such read in every state instead
 
 VARIABLES logs, validFrom, cachedDocs,        \* implementation
           maxLen, minLen,                     \* configuration of this behaviour
@@ -55,6 +59,7 @@ SortBySeq(S) == IF S = {} THEN <<>>
 -----------------------------------------------------------------------------
 (* the cache as a value c = [logs, vf, docs]; operators transcribe the methods *)
 Cur == [logs |-> logs, vf |-> validFrom, docs |-> cachedDocs]
+TruthSeq == SortBySeq(truth)     \* what the bucket index holds for this channel, in key order
 
 (* insertChange: walk backwards; insertAtIndex = position after the last entry older than e; the first entry of
    the same document met from the end decides: newer-or-equal => ignore, older => it is dropped and e takes the
@@ -136,9 +141,10 @@ GetCached(c, s, lim) ==
            n  == IF lim > 0 /\ n0 > lim THEN lim ELSE n0
        IN [vf |-> IF st > 0 THEN L[st].seq + 1 ELSE c.vf, rows |-> SubSeq(L, st + 1, st + n)]
 
-(* the channel query (environment): rows of T with lo <= seq <= hi, ascending, active only if asked, first lim *)
+(* the channel query (environment): rows of T (given in ascending order) with lo <= seq <= hi, active only if
+   asked, first lim *)
 Query(T, lo, hi, lim, ao) ==
-  LET S == SortBySeq({r \in T : lo <= r.seq /\ r.seq <= hi /\ (ao => ~r.rm)}) IN
+  LET S == SelectSeq(T, LAMBDA r : lo <= r.seq /\ r.seq <= hi /\ (ao => ~r.rm)) IN
   IF lim > 0 /\ Len(S) > lim THEN SubSeq(S, 1, lim) ELSE S
 
 (* GetChanges, first part: the cached read (limit ignored for active-only) *)
@@ -179,7 +185,7 @@ Used == {e.doc : e \in ever}
 DocOK(d) == \E i \in 1..Len(DocSeq) : DocSeq[i] = d /\ \A j \in 1..(i - 1) : DocSeq[j] \in Used
 WriteOK(d, rm) == nextSeq <= MaxSeq /\ DocOK(d) /\ (rm => ActiveIn(d))
 
-ImplDeliver(e) == SetCache(AddToCache(Cur, e, maxLen))
+ImplDeliver(e) == LET c == AddToCache(Cur, e, maxLen) IN SetCache(c)
 GhostWrite(e, now) ==      \* a write that concerns this channel; now = handed to the cache in the same step
   /\ truth' = {r \in truth : r.doc # e.doc} \cup {e}
   /\ pending' = IF now THEN pending ELSE pending \cup {e}
@@ -192,18 +198,18 @@ GhostDeliver(e) ==
 GhostGap ==                \* a sequence used by a document of other channels: only the counters move
   /\ hcs' = Max2(hcs, nextSeq) /\ nextSeq' = nextSeq + 1 /\ res' = NoRes /\ rd' = Dirty(rd)
   /\ UNCHANGED <<maxLen, minLen, truth, pending, ever>>
-ImplPruneAge(k) == SetCache(PruneAgeOp(Cur, k, minLen, maxLen))
+ImplPruneAge(k) == LET c == PruneAgeOp(Cur, k, minLen, maxLen) IN SetCache(c)
 GhostQuiet == res' = NoRes /\ rd' = Dirty(rd) /\ UNCHANGED <<maxLen, minLen, truth, pending, nextSeq, hcs, ever>>
-ImplPurge(d) == SetCache(RemoveOp(Cur, {d}))
+ImplPurge(d) == LET c == RemoveOp(Cur, {d}) IN SetCache(c)
 GhostPurge(d) ==
   /\ truth' = {r \in truth : r.doc # d} /\ res' = NoRes /\ rd' = Dirty(rd)
   /\ UNCHANGED <<maxLen, minLen, pending, nextSeq, hcs, ever>>
 ImplRecreate == logs' = <<>> /\ cachedDocs' = {} /\ validFrom' = hcs + 1
 
-ImplRead(s, lim, ao) == SetCache(AtomicRead(Cur, truth, s, lim, ao, maxLen).c)
-ReadRows(s, lim, ao) == AtomicRead(Cur, truth, s, lim, ao, maxLen).rows
+ImplRead(s, lim, ao) == LET c == AtomicRead(Cur, TruthSeq, s, lim, ao, maxLen).c IN SetCache(c)
+ReadRows(s, lim, ao) == AtomicRead(Cur, TruthSeq, s, lim, ao, maxLen).rows
 GhostRead(s, lim, ao, rows) ==
-  /\ res' = [s |-> s, lim |-> lim, ao |-> ao, rows |-> rows, clean |-> TRUE]
+  /\ res' = IF RecordReads THEN [s |-> s, lim |-> lim, ao |-> ao, rows |-> rows, clean |-> TRUE] ELSE NoRes
   /\ UNCHANGED <<maxLen, minLen, truth, pending, nextSeq, hcs, ever, rd>>
 
 (* split read; rd holds the locals of GetChanges *)
@@ -214,11 +220,11 @@ GhostReadBegin(s, lim, ao) ==
 GhostReadQuery(q) ==
   /\ rd' = [rd EXCEPT !.q = q, !.stage = "prepend"]
   /\ res' = NoRes /\ UNCHANGED <<maxLen, minLen, truth, pending, nextSeq, hcs, ever>>
-QueryNow == Query(truth, rd.s + 1, rd.vf, rd.lim, rd.ao)
-ImplReadEnd == SetCache(AfterQuery(Cur, rd.s, rd.lim, rd.ao, rd.vf, rd.fc, rd.q, maxLen))
+QueryNow == Query(TruthSeq, rd.s + 1, rd.vf, rd.lim, rd.ao)
+ImplReadEnd == LET c == AfterQuery(Cur, rd.s, rd.lim, rd.ao, rd.vf, rd.fc, rd.q, maxLen) IN SetCache(c)
 EndRows == Compose(rd.lim, rd.fc, rd.q)
 GhostReadEnd(rows) ==
-  /\ res' = [s |-> rd.s, lim |-> rd.lim, ao |-> rd.ao, rows |-> rows, clean |-> rd.clean]
+  /\ res' = IF RecordReads \/ ~rd.clean THEN [s |-> rd.s, lim |-> rd.lim, ao |-> rd.ao, rows |-> rows, clean |-> rd.clean] ELSE NoRes
   /\ rd' = NoRd /\ UNCHANGED <<maxLen, minLen, truth, pending, nextSeq, hcs, ever>>
 
 Step(r) == hist' = Append(hist, r)
@@ -239,14 +245,18 @@ Gap == On("Gap") /\ nextSeq <= MaxSeq /\ UNCHANGED impl /\ GhostGap /\ Step([a |
 PruneAge(k) ==
   On("PruneAge") /\ minLen < maxLen /\ Len(logs) > minLen /\ k \in 1..(Len(logs) - minLen)
   /\ ImplPruneAge(k) /\ GhostQuiet /\ Step([a |-> "PruneAge", k |-> k])
-Purge(d) ==      \* assumption: no write of d is in flight when it is purged (the code guards that race by TimeReceived)
-  On("Purge") /\ (\E r \in truth : r.doc = d) /\ (\A p \in pending : p.doc # d)
+Purge(d) ==      \* assumptions: no write of d is in flight when it is purged (the code guards that race by TimeReceived),
+                 \* and no query backfill is in flight (a prepend after the purge would re-insert the purged row: NOTES.md)
+  On("Purge") /\ rd = NoRd /\ (\E r \in truth : r.doc = d) /\ (\A p \in pending : p.doc # d)
   /\ ImplPurge(d) /\ GhostPurge(d) /\ Step([a |-> "Purge", doc |-> d])
 Recreate ==
   On("Recreate") /\ rd = NoRd /\ (Len(logs) > 0 \/ validFrom # hcs + 1)
   /\ ImplRecreate /\ GhostQuiet /\ Step([a |-> "Recreate"])
 Read(s, lim, ao) ==
-  On("Read") /\ rd = NoRd /\ ImplRead(s, lim, ao) /\ GhostRead(s, lim, ao, ReadRows(s, lim, ao))
+  LET r == AtomicRead(Cur, TruthSeq, s, lim, ao, maxLen)
+      c == r.c IN            \* = ImplRead(s, lim, ao) /\ GhostRead(s, lim, ao, ReadRows(s, lim, ao)), evaluated once
+  On("Read") /\ rd = NoRd /\ (HitSteps \/ ~ReadStart(Cur, s, lim, ao).hit)
+  /\ SetCache(c) /\ GhostRead(s, lim, ao, r.rows)
   /\ Step([a |-> "Read", s |-> s, lim |-> lim, ao |-> ao])
 ReadBegin(s, lim, ao) ==
   On("Split") /\ rd = NoRd /\ ~ReadStart(Cur, s, lim, ao).hit /\ UNCHANGED impl /\ GhostReadBegin(s, lim, ao)
@@ -267,7 +277,7 @@ Next ==
      \/ \E k \in 1..Len(logs) : PruneAge(k)
      \/ \E d \in Docs : Purge(d)
      \/ Recreate
-     \/ \E s \in Sinces, lim \in Lims, ao \in BOOLEAN : Read(s, lim, ao) \/ ReadBegin(s, lim, ao)
+     \/ \E s \in Sinces, lim \in Lims, ao \in AOs : Read(s, lim, ao) \/ ReadBegin(s, lim, ao)
      \/ ReadQuery \/ ReadEnd
 Spec == Init /\ [][Next]_vars
 
@@ -309,8 +319,9 @@ ReadCorrect ==
 (* model only: every possible read in every reachable state, and the cache it leaves behind *)
 ReadCorrectAll ==
   rd = NoRd =>
-    \A s \in Sinces, lim \in Lims, ao \in BOOLEAN :
-      LET r == AtomicRead(Cur, truth, s, lim, ao, maxLen) IN
+    LET ts == TruthSeq IN
+    \A s \in Sinces, lim \in Lims, ao \in AOs :
+      LET r == AtomicRead(Cur, ts, s, lim, ao, maxLen) IN
       /\ ReadOK(r.rows, s, lim, ao)
       /\ AscOf(r.c.logs) /\ OnePerDocOf(r.c.logs) /\ CompleteOf(r.c) /\ r.c.docs = DocsOf(r.c.logs)
 TypeOK ==
